@@ -49,6 +49,13 @@ def _flag_dependent(fn, access_node, flag_words, masks):
     return True, ""
 
 
+def _ancestors_of(n, stop):
+    p = getattr(n, "_parent", None)
+    while p is not None and p is not stop:
+        yield p
+        p = getattr(p, "_parent", None)
+
+
 def run(ck):
     ck.rule("R1", "the access of a mapped section/segment depends on the header's write flag", floor=3)
     ck.rule("R2", "an import slot receives the stub address of its own import", floor=2)
@@ -77,6 +84,18 @@ def run(ck):
                 in_loop = True
             p = getattr(p, "_parent", None)
         ok, why = _flag_dependent(fn, c.args[1], ("section.flags", ".flags"), (0x80000000,))
+        if in_loop and isinstance(c.args[1], ast.Name):
+            # the access value is per section: it must be (re)defined in each iteration before it is used, not carried over
+            lp = [q_ for q_ in _ancestors_of(c, fn) if isinstance(q_, ast.For) and "pe.SHList" in norm(q_.iter)][0]
+            from sa.cfg import CFG as _CFG
+            lcfg = _CFG(lp.body)
+            uses = [nd for nd in lcfg.nodes if any(x is c for e_ in ([nd.ast] if nd.ast is not None else []) for x in ast.walk(e_))]
+            fresh = lambda nd: nd.kind == "stmt" and isinstance(nd.ast, ast.Assign) and any(isinstance(t, ast.Name) and t.id == c.args[1].id for t in nd.ast.targets)
+            res_ = lcfg.must_pass(fresh, targets=[u.id for u in uses])
+            carried = not (uses and all(res_.values()))
+            ck.ob("R1", "vm_load_pe:per-section:access-reset-each-section", not carried, pm.where(lp),
+                  "`%s` is not re-initialised inside the section loop before `%s`: a write permission granted to one section is inherited "
+                  "by every following section" % (c.args[1].id, norm(c)[:60]))
         key = "vm_load_pe:%s" % ("per-section" if in_loop else "single-page(unaligned image)")
         ck.ob("R1", key, ok, pm.where(c),
               "sections are mapped with access `%s`: %s; a section whose header does not request write becomes writable" % (norm(c.args[1]), why))
